@@ -394,6 +394,15 @@ def extra(repo, reg, tier, seed):
                       mode="bounded", func=f"{PARSER}.FortranFile.apply_change", witness=w, confirmed=True if w else None,
                       detail="bounded: edit/revert and twin-document histories; the proofs model lists by value, so "
                              "sharing of the line list between calls or documents is checked natively"))
+    w = _cr_joins_lf()
+    items.append(Item("C02/session/native_cr_joins_following_lf", "refuted" if w else "bounded-ok", "native-run(bounded)", 0.0,
+                      mode="bounded", func="fortls.parsers.internal.parser.FortranFile.apply_change", witness=w, confirmed=True if w else None,
+                      detail="bounded: one history in which an inserted CR meets the LF that already ends the line"))
+    w = _full_sync_batches()
+    items.append(Item("C02/session/full_sync_batches", "refuted" if w else "bounded-ok", "native-run(bounded)", 0.0,
+                      mode="bounded", func="fortls.langserver.LangServer.serve_onChange", witness=w, confirmed=True if w else None,
+                      detail="bounded: didChange notifications with one, two and three whole documents under full synchronisation: "
+                             "the server holds the last one"))
     w = _typing_histories()
     items.append(Item("C02/session/typing_histories", "refuted" if w else "bounded-ok", "native-run(bounded)", 0.0,
                       mode="bounded", func="fortls.parsers.internal.parser.FortranFile.apply_change", witness=w, confirmed=True if w else None,
@@ -425,6 +434,42 @@ def extra(repo, reg, tier, seed):
 TYPED_LINES = ["  real(8) :: x", "  integer(kind=4), intent(in) :: i", "  type(t) :: v", "  class(c), allocatable :: o",
                "  character(len=*), parameter :: s = 'a!b'", "  procedure(iface), pointer :: p => null()", "  real*8 w", "  use m, only: a => b",
                "  call s(x=1, y=(/1, 2/))  ! c", "10 continue", "  end subroutine", "  if (a) then; b = 1; end if", "#define N 4"]
+
+
+def _cr_joins_lf():
+    """a lone CR inserted directly in front of an LF line break forms one CRLF break with it in the client's text"""
+    from fortls.parsers.internal.parser import FortranFile
+    f = FortranFile("cr.f90")
+    f.apply_change({"text": "a\nb"})
+    f.apply_change({"range": {"start": {"line": 0, "character": 1}, "end": {"line": 0, "character": 1}}, "text": "\r"})
+    client = "a\r\nb".splitlines()
+    got = list(f.contents_split)
+    if got != client:
+        return {"history": ["whole document 'a\\nb'", "insert '\\r' at 0:1"], "client_lines": client, "server_lines": got}
+    return None
+
+
+def _full_sync_batches():
+    """Full synchronisation: a notification may carry several whole documents; the client holds the last one."""
+    from replay.harness import Workspace, make_server
+    from fortls.jsonrpc import path_to_uri
+    for batch in (["first\n"], ["first\n", "second\nline\n"], ["a\n", "b\n", "program p\nend program p\n"]):
+        ws = Workspace({"a.f90": "program a\nend program a\n"})
+        try:
+            srv, rw = make_server()
+            srv.nthreads = 1
+            srv.handle({"jsonrpc": "2.0", "id": 0, "method": "initialize", "params": {"rootUri": path_to_uri(ws.root), "rootPath": ws.root}})
+            uri = ws.uri("a.f90")
+            srv.handle({"jsonrpc": "2.0", "method": "textDocument/didOpen", "params": {"textDocument": {"uri": uri}}})
+            srv.handle({"jsonrpc": "2.0", "method": "textDocument/didChange",
+                        "params": {"textDocument": {"uri": uri}, "contentChanges": [{"text": t} for t in batch]}})
+            fobj = srv.workspace.get(ws.path("a.f90"))
+            got = list(fobj.contents_split) if fobj is not None else None
+            if got != native_lines(batch[-1]):
+                return {"synchronisation": "full", "contentChanges": batch, "client_lines": native_lines(batch[-1]), "server_lines": got}
+        finally:
+            ws.close()
+    return None
 
 
 def _typing_histories():
